@@ -218,6 +218,25 @@ def check_series(part: Part, vals, calc, core):
                 pm[M.duration] != (idx[-1] - idx[0]) + (idx[1] - idx[0]):
             part.violation("C20|performance_metrics|period", "start/end/duration wrong",
                            {"fn": "performance_metrics", "series": fv, "interval": freq, "metric": "period"})
+        if n >= 4 and i_freq % 2 == 0:
+            # a bar is missing from the history (an outage): the run still lasts from its first bar to the end of its last one, whatever the number of rows
+            hidx = pd.date_range("2024-01-01", periods=n + 1, freq=freq).delete(n // 2 + 1)
+            hs = pd.Series(fv, index=hidx)
+            hdur = interval_in_day * (n + 1)
+            with np.errstate(all="ignore"):
+                hpm = core.performance_metrics(hs, annualized_risk_free_rate=rf)
+            part.count("evaluations")
+            part.count("holed_histories")
+            try:
+                hapr = float(vals[-1] / vals[0]) ** (365 / hdur) - 1
+            except OverflowError:
+                hapr = math.inf
+            bad = hpm[M.duration] != (hidx[-1] - hidx[0]) + (hidx[1] - hidx[0]) or not close(hpm[M.return_rate], fv[-1] / fv[0] - 1, rel=1e-9) \
+                or (math.isfinite(hapr) and not close(hpm[M.annualized_return], hapr, rel=1e-7, abs_=1e-9))
+            if bad:
+                part.violation("C20|performance_metrics|holed-history", "with a bar missing from the history the duration / annualised return is not that of first bar .. end of last bar",
+                               {"fn": "performance_metrics", "series": fv, "interval": freq, "metric": "holed"}, {"annualized_return": hpm[M.annualized_return], "expected": hapr,
+                                                                                                                      "duration": str(hpm[M.duration])})
 
 
 def work_series(args):
@@ -308,6 +327,18 @@ def work_bench(args):
                 if not ok:
                     part.violation("C20|performance_metrics|benchmark", "benchmark metrics differ from definitions",
                                    {"fn": "performance_metrics_bench", "series": fa, "benchmark": fb})
+                # the report belongs to the caller (who may edit it), and the next report, asked for WITHOUT a benchmark, has no benchmark figures (they are
+                # "not calculated": not numbers left over from an earlier call)
+                for k in list(pm):
+                    pm[k] = -12345.678
+                with np.errstate(all="ignore"):
+                    pm2 = core.performance_metrics(sa)
+                part.count("evaluations")
+                left = {k.name: pm2[k] for k in (M.alpha, M.beta, M.benchmark_rate, M.annualized_benchmark_rate) if k in pm2 and pm2[k] is not None
+                        and isinstance(pm2[k], (int, float, np.floating)) and math.isfinite(float(pm2[k]))}
+                if left or not close(pm2[M.return_rate], fa[-1] / fa[0] - 1, rel=1e-9) or not close(pm2[M.end_val], fa[-1]):
+                    part.violation("C20|performance_metrics|leftover-benchmark", "a report asked for without a benchmark carries benchmark figures (or edited values) of an earlier report",
+                                   {"fn": "performance_metrics_bench", "series": fa, "benchmark": fb}, {"leftover": {k: float(v) for k, v in left.items()}})
     return part.result()
 
 
